@@ -12,4 +12,9 @@ let table : (string * (BinNums.coq_N list -> BinNums.coq_N list)) list = [
   ("mon_c15", MonTimers.mon_c15);
   ("mon_c08", MonIds.mon_c08);
   ("mon_c12", MonIds.mon_c12);
+  ("mon_c06", MonSession.mon_c06);
+  ("mon_c07", MonSession.mon_c07);
+  ("mon_c13", MonSession.mon_c13);
+  ("mon_c14", MonSession.mon_c14);
+  ("mon_c05", MonSession.mon_c05);
 ]
